@@ -11,8 +11,8 @@ In `Mode.checked` (debug assertions and overflow checks on) a panic is a `Fault`
 `partial_reduce32` (C18; the pinned tree faulted here: F3); all six external entry points on over-long
 contexts (C07); key generation and both signers on every failing generator (C12); re-serialisation range
 self-checks for every accepted private key (C10; pinned tree: F1); and public-key derivation does not read
-`t0` (C11; pinned tree: F2).  The remaining paths (forward NTT / mat_vec_mul envelope, codec index arithmetic,
-sampler loops) are not proved (`C13_full`); they are exercised on every run in the checked build with hostile
+`t0` (C11; pinned tree: F2).  the verifier's and signer's lazy NTT pipelines on their whole input envelopes (C18).  The remaining paths (codec index
+arithmetic, sampler loops, the scalar post-processing of sign) are not proved (`C13_full`); they are exercised on every run in the checked build with hostile
 inputs, and every panic there is reported with the input.
 -/
 namespace Fips204.Props.C13
@@ -37,6 +37,18 @@ theorem inv_ntt_no_fault (ws : List (List Int)) (hw : ∀ w ∈ ws, ∀ x ∈ w,
     NoFault (invNtt .checked ws) := by
   obtain ⟨r, hr, _⟩ := C18.inv_ntt_never_overflows .checked ws hw
   exact ⟨r, hr⟩
+
+/-- the verifier's whole NTT pipeline (Algorithm 8 step 9) on an adversary's response vector, and the signer's / key
+    generator's commitment pipeline: no overflow, no failed assertion (from C18) -/
+theorem ntt_pipelines_no_fault (aHat : List (List Poly)) (z : List Poly) (c : Poly) (t1d2 : List Poly)
+    (hA : ∀ row ∈ aHat, row.length ≤ 7 ∧ ∀ p ∈ row, ∀ x ∈ p, 0 ≤ x ∧ x ≤ 8380416)
+    (hz : ∀ w ∈ z, ∀ x ∈ w, -524288 ≤ x ∧ x ≤ 524288) (hc : ∀ x ∈ c, -1 ≤ x ∧ x ≤ 1)
+    (ht : ∀ w ∈ t1d2, ∀ x ∈ w, -16760833 ≤ x ∧ x ≤ 16760833) :
+    NoFault (wApproxOf .checked aHat z c t1d2) ∧
+    NoFault (do let yh ← ntt .checked z; let ay ← matVecMul .checked aHat yh; invNtt .checked ay) := by
+  obtain ⟨r, hr, _⟩ := C18.verify_pipeline_never_overflows .checked aHat z c t1d2 hA hz hc ht
+  obtain ⟨r2, hr2, _⟩ := C18.commitment_pipeline_never_overflows .checked aHat z hA hz
+  exact ⟨⟨r, hr⟩, ⟨r2, hr2⟩⟩
 
 theorem long_context_no_fault (O : Oracles) (p : ParamSet) (fuel : Nat) (sk : PrivateKey) (pk : PublicKey)
     (msg sig ctx rnd : List Nat) (ph : Ph) (script : List RngResp) (h : ctx.length > 255) :
